@@ -163,6 +163,7 @@ export class TypeGen {
       opts.push([1, () => A.kw("bigint")]);
       opts.push([1, () => ({ k: "builtin", name: "Date" })]);
       opts.push([0.6, () => ({ k: "builtin", name: r.pick(TYPED) })]);
+      opts.push([0.3, () => ({ k: "fn" })]); // a function-typed member: validated with typeof, not printable as JSON Schema
     }
     if (this.f.formats) opts.push([1.5, () => this.fmt()]);
     if (this.f.templates) opts.push([2, () => this.template()]);
